@@ -40,6 +40,8 @@ pub enum Ty {
     Int(i128, i128),
     /// user type (shapes.rs, `echo_type!`): a possibly empty run of ASCII letters and digits
     Word,
+    /// user type (shapes.rs, `swallow_type!`): a possibly empty run of Unicode letters and digits
+    WordU,
 }
 
 #[derive(Clone, Copy, PartialEq, Debug)]
@@ -265,6 +267,10 @@ fn value_of(ty: Ty, tok: &[u8]) -> Val {
         Ty::Int(min, max) => match int_of(tok, min, max) {
             Some(i) => Val::Good(V::I(i)),
             None => Val::Bad,
+        },
+        Ty::WordU => match std::str::from_utf8(tok) {
+            Ok(s) if s.chars().all(char::is_alphanumeric) => Val::Good(V::B(tok.to_vec())),
+            _ => Val::Bad,
         },
         Ty::Word => {
             if tok.iter().all(u8::is_ascii_alphanumeric) {
@@ -516,7 +522,7 @@ fn domain(ty: Ty, dom: &[Tok], after_option: bool, own_lit: Option<&str>, thorou
                 push_unique(&mut v, d);
             }
         }
-        Ty::Word => {
+        Ty::Word | Ty::WordU => {
             for t in [&b"x"[..], b"", L200, b"7", b"12x"] {
                 push_unique(&mut v, t);
             }
@@ -932,7 +938,8 @@ fn alphabet(g: &Grammar) -> Vec<Vec<u8>> {
     if signed {
         push_unique(&mut v, b"-5");
     }
-    if lv.iter().any(|l| l.opts.iter().any(|o| o.ty == Ty::Word) || l.pos.iter().any(|p| p.ty == Ty::Word)) {
+    let wordy = |t: Ty| t == Ty::Word || t == Ty::WordU;
+    if lv.iter().any(|l| l.opts.iter().any(|o| wordy(o.ty)) || l.pos.iter().any(|p| wordy(p.ty))) {
         push_unique(&mut v, "a€".as_bytes());
     }
     for t in [&b"\xff\xfe"[..], L200] {
@@ -1404,6 +1411,23 @@ fn ladder_chunk(sh: &Shape, helps: &[String], thorough: bool) -> Report {
                 }
             }
         }
+        // a run of multi-byte LETTERS (2, 3, 4 bytes, at every phase) ending in `!`: for error types that echo the
+        // text before the offending character, byte 128 of the cause falls inside a character of the echoed run
+        for ch in ["é", "中", "𝐀"] {
+            for shift in 0..ch.len() {
+                if shift + ch.len() + 1 > len {
+                    continue;
+                }
+                let mut t: Vec<u8> = vec![b'p'; shift];
+                while t.len() + ch.len() + 1 <= len {
+                    t.extend_from_slice(ch.as_bytes());
+                }
+                while t.len() < len {
+                    t.push(b'!');
+                }
+                toks.push(t);
+            }
+        }
         for t in &toks {
             for pre in &prefixes {
                 let mut list: Vec<&'static UnixStr> = pre.iter().map(|p| intern(p)).collect();
@@ -1513,7 +1537,92 @@ fn check_cause(way: &str, pat: &str, k: usize, c: char, suffix: &str, r: &mut Re
     }
 }
 
+/// Sweep 4b: `fmt::Write` calls made directly on an `ArgParseCauseBuffer` (the `cause` field of the error value is
+/// public, a caller may append context to it).  After EVERY call, whatever it returned: the buffer renders (valid
+/// UTF-8), holds exactly the accepted pieces - a refused piece leaves it unchanged - and is at most 128 bytes long.
+const SEQ_WAYS: &[&str] = &["str+str", "str+char", "str+fmt", "str+str-with-tail", "fmt(str,char)", "str+char+str"];
+
+fn check_seq(way: &str, pat: &str, k: usize, c: char, r: &mut Report) {
+    use std::fmt::Write;
+    r.eval();
+    r.nontrivial_unique();
+    let (help, _) = shapes::cause_help();
+    let case = json!({"sweep": "cause-seq", "way": way, "prefix": pat, "prefix_len": k, "ch": c.to_string()});
+    let p = cause_prefix(pat, k);
+    let cs = c.to_string();
+    let ctail = format!("{c}zz");
+    // each step: (what is written, the whole-piece prefixes that may be in the buffer after a refusal)
+    enum Call<'a> {
+        Str(&'a str),
+        Char(char),
+        Fmt(&'a str, char),
+    }
+    let steps: Vec<Call> = match way {
+        "str+str" => vec![Call::Str(&p), Call::Str(&cs)],
+        "str+char" => vec![Call::Str(&p), Call::Char(c)],
+        "str+fmt" => vec![Call::Str(&p), Call::Fmt("", c)],
+        "str+str-with-tail" => vec![Call::Str(&p), Call::Str(&ctail), Call::Str("y")],
+        "fmt(str,char)" => vec![Call::Fmt(&p, c), Call::Str("y")],
+        "str+char+str" => vec![Call::Str(&p), Call::Char(c), Call::Str("y"), Call::Char('!')],
+        _ => panic!("unknown way {way}"),
+    };
+    let res = catch(|| {
+        let mut buf = match ArgParseError::new_cause_str(help, "") {
+            Ok(e) | Err(e) => e.cause,
+        };
+        let mut model = String::new();
+        for (i, st) in steps.iter().enumerate() {
+            let (ret, piece, partials): (std::fmt::Result, String, Vec<String>) = match st {
+                Call::Str(s) => (buf.write_str(s), s.to_string(), vec![]),
+                Call::Char(ch) => (buf.write_char(*ch), ch.to_string(), vec![]),
+                Call::Fmt(s, ch) => (buf.write_fmt(format_args!("{s}{ch}")), format!("{s}{ch}"), vec![s.to_string()]),
+            };
+            let shown = catch(|| buf.to_string());
+            let got = match shown {
+                Ok(g) => g,
+                Err(e) => return Err((i, ret.is_ok(), format!("the buffer no longer renders ({e}); len() = {}", buf.len()))),
+            };
+            if buf.len() > 128 || buf.len() != got.len() {
+                return Err((i, ret.is_ok(), format!("len() = {} but {} bytes render", buf.len(), got.len())));
+            }
+            let allowed: Vec<String> = if ret.is_ok() {
+                vec![format!("{model}{piece}")]
+            } else {
+                std::iter::once(model.clone()).chain(partials.iter().map(|x| format!("{model}{x}"))).collect()
+            };
+            if !allowed.contains(&got) {
+                return Err((i, ret.is_ok(), format!("holds {} bytes {:?}…, expected {} bytes", got.len(), got.chars().rev().take(6).collect::<String>(), allowed[0].len())));
+            }
+            model = got;
+        }
+        Ok(())
+    });
+    match res {
+        Err(pn) => r.violation("C20:cause-buffer:panic", format!("write sequence [{way}] prefix {pat:?}x{k} char {c:?} panicked: {pn}"), case),
+        Ok(Ok(())) => r.outcome("cause-seq-consistent"),
+        Ok(Err((i, accepted, what))) => {
+            r.outcome("cause-seq-inconsistent");
+            r.violation(
+                if accepted { "C20:cause-buffer:accepted-write-not-appended" } else { "C20:cause-buffer:torn-after-refused-write" },
+                format!("write sequence [{way}] with a {k}-byte prefix of {pat:?} and char {c:?}: after call #{i} ({}) {what}", if accepted { "returned Ok" } else { "refused" }),
+                case,
+            );
+        }
+    }
+}
+
 fn cause_chunk(way: &str, thorough: bool) -> Report {
+    if SEQ_WAYS.contains(&way) {
+        let mut r = Report::new();
+        for k in 0..=(if thorough { 300 } else { 140 }) {
+            for pat in ["a", "é", "€", "𝐀"] {
+                for &c in CAUSE_CHARS {
+                    check_seq(way, pat, k, c, &mut r);
+                }
+            }
+        }
+        return r;
+    }
     let mut r = Report::new();
     let max = if thorough { 300 } else { 140 };
     for k in 0..=max {
@@ -1574,7 +1683,7 @@ fn c20(args: &Args) -> Report {
             work.push(Work::Ladder(si));
         }
     }
-    for w in 0..CAUSE_WAYS.len() {
+    for w in 0..CAUSE_WAYS.len() + SEQ_WAYS.len() {
         work.push(Work::Cause(w));
     }
     for (si, _) in shapes.iter().enumerate() {
@@ -1598,7 +1707,7 @@ fn c20(args: &Args) -> Report {
         }
     }
     let mut r = par_items(work.len(), args.seed, |i| match work[i] {
-        Work::Cause(w) => cause_chunk(CAUSE_WAYS[w], args.thorough),
+        Work::Cause(w) => cause_chunk(if w < CAUSE_WAYS.len() { CAUSE_WAYS[w] } else { SEQ_WAYS[w - CAUSE_WAYS.len()] }, args.thorough),
         Work::PosObserve(si) => {
             let mut r = Report::new();
             positional_optionlike(&shapes[si], &mut r);
@@ -1630,6 +1739,9 @@ fn c20(args: &Args) -> Report {
         Repeats: a single-valued option given twice or a second command make a list open (either outcome accepted) except for the shapes marked \
         strict_repeats, where accepting it is keyed accepted-repeated-single-option / accepted-two-subcommands. \
         Sweep 5 (observation only): positional values equal to -h, --help, -x or an own option literal, outcome classes positional=<kind>:<what>. \
+        Sweep 4b: write_str / write_char / write_fmt sequences of 2-4 calls made directly on the public cause buffer (prefix of every length 0..=140 in 1-, 2-, 3-, \
+        4-byte characters, each of the six characters at the boundary): after every call the buffer renders, holds exactly the accepted pieces, len <= 128. \
+        The family has field types whose FromStr::Err Display swallows write errors (ignore-and-Ok, ignored middle piece, write after a failure). \
         Sweep 4: ArgParseError::new_cause_str / new_cause_fmt called directly, every way of writing (one str, pieces, char argument plain / Debug / padded / \
         first / doubled, write_char, nested arguments) x prefix of every byte length 0..=140 (thorough 300) in 1-, 2- and 3-byte characters x six \
         characters of 1..4 bytes x three suffixes: no panic, the error renders and starts with the help text."
@@ -1651,6 +1763,15 @@ fn c20(args: &Args) -> Report {
 }
 
 fn replay(v: &Value, r: &mut Report) {
+    if v["sweep"].as_str() == Some("cause-seq") {
+        let c = v["ch"].as_str().and_then(|s| s.chars().next()).unwrap_or('?');
+        check_seq(v["way"].as_str().unwrap_or("str+str"), v["prefix"].as_str().unwrap_or("a"), v["prefix_len"].as_u64().unwrap_or(0) as usize, c, r);
+        println!("outcomes: {:?}", r.outcomes);
+        for v in r.violations.values() {
+            println!("VIOLATED {}: {}", v.key, v.desc);
+        }
+        return;
+    }
     if v["sweep"].as_str() == Some("cause") {
         let c = v["ch"].as_str().and_then(|s| s.chars().next()).unwrap_or('?');
         let (way, pat, k, suffix) =
